@@ -191,4 +191,11 @@ theorem pointer_receiver_counterexample :
     let s : RState := { pub := { (default : CharRecipe) with allowChars := [97] }, allowedSet := [], requiredSets := [] }
     (call .pointer cfg s .alphabet).1 ≠ s := by decide
 
+/-- **No environment inputs**: the library calls into no package that could supply anything that
+varies between runs or machines — clock, environment variables, processor count, scheduler,
+`math/rand` — other than `crypto/rand.Read`. (Seeded change C07j made `Entropy()` depend on
+`runtime.GOMAXPROCS`.) -/
+theorem no_environment_inputs :
+    (Spg.Generated.Facts.sensitiveCalls.all fun c => c.2.2.1 == "crypto/rand.Read") = true := by decide
+
 end Spg.C15
